@@ -171,12 +171,11 @@ class _CallPatchX86(_CallPatchImpl):
         arg_stack_size = sum(
             stack_slot_size for arg in self._args if not arg.reg
         )
+        # Everything that is on the stack when the call happens counts
+        # towards the alignment, including the shadow space.
+        total_stack_size = arg_stack_size + self._cconv.shadow_space
         if insertion_context.stack_adjustment is not None:
-            total_stack_size = (
-                insertion_context.stack_adjustment + arg_stack_size
-            )
-        else:
-            total_stack_size = arg_stack_size
+            total_stack_size += insertion_context.stack_adjustment
 
         stack_padding = (
             align_address(total_stack_size, self._cconv.stack_alignment)
